@@ -807,7 +807,8 @@ func TestProp(t *testing.T) {
 			"termination (watchdog), existence of an increasing index map showing the output is a subsequence keeping first and last vertex with every dropped " +
 			"vertex within tol*(1+1e-9) + 16 ulps of the largest coordinate of its replacing segment (dynamic programme, so duplicate vertices cannot confuse it), input unchanged, members simplified " +
 			"independently, and - when the input is simple by an independent O(n^2) test with margin 1e-6 - no two non-adjacent output segments properly cross (orientation margin 1e-9); for simple lines of <= 60 vertices that last test and the end points are repeated with the line multiplied exactly by 2^k for every second k in -60..60 (scale sweep). " +
-			"Non-trivial = at least one vertex dropped. Distinct by case hash.",
+			"Non-trivial = at least one vertex dropped. Distinct by case hash." +
+			" Round 9: 'weave' lines (1 in 4 of the line cases that are not poke lines: a comb of 0-18 tall spikes, a vertex S, a tail of 5-18 vertices inside a band of 0.3-1.1 tolerances under the spike tips).",
 		Assumptions:  []string{"termination is decided by a 20 s watchdog on calls that normally take microseconds, confirmed by a fresh-process replay", "rings of one polygon are not claimed independent (the code passes sibling rings as obstacles)"},
 		Gen:          gen,
 		Run:          run,
